@@ -297,6 +297,45 @@ func (vc *VC) checkCallAsserts(st *State, call *ast.CallExpr, origin *types.Func
 		if ca.Callee != origin.Name() || ca.Ord != ord {
 			continue
 		}
+		key := fmt.Sprintf("%s %d %s", ca.Callee, ca.Ord, ca.Clause.Label)
+		if ca.Closure {
+			vc.callAssertSeen[key] = true
+			fam := fmt.Sprintf("%s%d.%s", ca.Callee, ca.Ord, ca.Clause.Label)
+			var fn *FuncVal
+			for _, a := range args {
+				if a != nil && a.Fn != nil && a.Fn.Lit != nil {
+					fn = a.Fn
+				}
+			}
+			if fn == nil {
+				vc.oblige(st, "closure", fam, "closure "+ca.Callee+" "+fmt.Sprint(ca.Ord)+": the argument is not a function literal (its effect cannot be established)", call.Pos(), "false")
+				continue
+			}
+			work := st.clone()
+			vc.havocAllHeap(work)
+			if fn.Env != nil {
+				for o, v := range fn.Env.env {
+					if _, ok := work.env[o]; !ok {
+						work.env[o] = v
+					}
+				}
+			}
+			lsig, _ := fn.Pkg.P.TypesInfo.TypeOf(fn.Lit).(*types.Signature)
+			if lsig == nil {
+				continue
+			}
+			var largs []*Value
+			for i := 0; i < lsig.Params().Len(); i++ {
+				largs = append(largs, vc.freshValue(work, fmt.Sprintf("cl_arg%d", i+1), lsig.Params().At(i).Type()))
+			}
+			savedGuards := vc.guards
+			vc.guards = nil
+			vc.inlineCall(work, fn.Lit, fn.Pkg, fn.Lit.Type, fn.Lit.Body, nil, lsig, nil, largs, nil)
+			t := vc.evalSpecBoolIn(vc.fnScope(work), ca.Clause.Expr)
+			vc.oblige(work, "closure", fam, "closure "+ca.Callee+" "+fmt.Sprint(ca.Ord)+" ensures "+ca.Clause.Text, call.Pos(), t)
+			vc.guards = savedGuards
+			continue
+		}
 		sc := vc.fnScope(st)
 		osig := origin.Type().(*types.Signature)
 		for i := 0; i < osig.Params().Len() && i < len(args); i++ {
